@@ -4,6 +4,7 @@
 -/
 import AL.Impl.Api
 import AL.Properties.C11
+import AL.Spec.X86Families
 import Std.Data.HashMap
 open AL AL.Impl AL.Gen
 
@@ -94,6 +95,12 @@ def step (st : DState) (line : String) : DState × String :=
     let r : R LineOut := if rc == "0" then (if bs.isEmpty then .ok .skip else .ok (.code bs)) else .error .fail
     ({ st with table := st.table.insert (opt.toNat!, unhex hex) r }, "ok")
   | ["Y", v] => ({ st with useTable := v != "0" }, "ok")
+  | ["Q", hex] =>
+    -- reference decoder: all instructions of the byte string, or "?" where decoding fails
+    (st, match AL.Spec.X86.decodeAll 64 (unhex hex) with
+         | none => "?"
+         | some ds => String.intercalate " ; " (ds.map AL.Spec.X86.Dec.render))
+  | ["QM", name] => (st, AL.Spec.X86.canonMn name)
   | ["P", hex] =>
     -- C11: is the (single) line outside the three option-sensitive classes?  "-" = no encoder input
     (st, match AL.Properties.C11.lineEncoderInput (unhex hex) with
@@ -154,7 +161,14 @@ partial def loop (h : IO.FS.Stream) (out : IO.FS.Stream) (st : DState) : IO Unit
     out.putStrLn o
     loop h out st'
 
-def main : IO Unit := do
-  let stdin ← IO.getStdin
-  let stdout ← IO.getStdout
-  loop stdin stdout {}
+def main (args : List String) : IO Unit := do
+  match args with
+  | ["enum", fam, level] =>
+    -- quantifier domain of a C01–C05 family: one line per instance, "<assembly text>\t<expected decoding>"
+    let out ← IO.getStdout
+    for it in AL.Spec.X86.family fam level.toNat! do
+      out.putStrLn (it.text ++ "\t" ++ it.want.render)
+  | _ =>
+    let stdin ← IO.getStdin
+    let stdout ← IO.getStdout
+    loop stdin stdout {}
